@@ -89,8 +89,26 @@ template <typename... Stages>
 void pipeline(ThreadPool& pool, Stages&&... sIn) {
   ConcurrentTaskSet tasks(pool);
   auto pipes = detail::makePipes(tasks, std::forward<Stages>(sIn)...);
+#if defined(__cpp_exceptions)
+  try {
+    pipes.execute();
+    pipes.wait();
+  } catch (...) {
+    // The task set sheds load by running functors inline, and a stage that is run inline on this
+    // thread lets its exception propagate straight through execute()/wait(), past the stage waits.
+    // Other stage invocations may still be in flight, and they use `pipes`: stop the pipeline and
+    // wait for them before the stages are destroyed.
+    detail::LimitGatedScheduler::captureCurrentException(tasks);
+    try {
+      tasks.wait();
+    } catch (...) {
+    }
+    throw;
+  }
+#else
   pipes.execute();
   pipes.wait();
+#endif // __cpp_exceptions
 }
 
 /**
